@@ -49,7 +49,7 @@ theorem valid_implies_init_ok_RequestAdaptor_partial (o : Oracle) (j : J)
   unfold reqAdaptorInitOK adaptorGuardsOK
   rcases hc with hc | hc <;> simp [hd, hc]
 
-private def oTrue : Oracle := ⟨fun _ => true, fun _ => some 1, fun _ => true, fun _ _ _ => true⟩
+private def oTrue : Oracle := ⟨fun _ => true, fun _ => some 1, fun _ => true, fun _ _ _ => true, fun _ => true⟩
 
 /-- negation witness: `compress: zip` is accepted and panics in `Init`. -/
 theorem requestAdaptor_violates :
@@ -239,22 +239,64 @@ theorem valid_implies_handle_ok_filter (o : Oracle) (j : J) :
 /-! ### resilience policies -/
 
 /-- Retry (repaired `RetryPolicy.Validate`): accepted ⇒ `0 ≤ randomizationFactor ≤ 1`, hence the
-argument of `rand.Intn` is ≥ 1 — as long as `waitDuration·factor·2+1` fits an int64
-(`retryNoOverflow`; FALSE in general: witness below, open finding). -/
+argument of `rand.Intn` is ≥ 1; that it also fits an int64 is `retry_valid_no_overflow` below. -/
 theorem retry_factor_range (o : Oracle) (p : J) (m : Int) (e : Nat)
     (hf : p.get "randomizationFactor" = .num m e) :
     retryValid o p = true → 0 ≤ m ∧ m ≤ (10 : Int) ^ e := by
   unfold retryValid
   intro h
   simp only [Bool.and_eq_true, hf, decide_eq_true_eq] at h
-  exact h.2
+  exact h.1.2
 
-private def oBig : Oracle := ⟨fun _ => true, fun _ => some 7200000000000000000, fun _ => true, fun _ _ _ => true⟩
+private def oBig : Oracle := ⟨fun _ => true, fun _ => some 7200000000000000000, fun _ => true, fun _ _ _ => true, fun _ => true⟩
 
-theorem retry_overflow_violates :
-    ∃ p, retryValid oBig p = true ∧ retryNoOverflow oBig p = false :=
+/-- **Retry overflow, repaired** (`fixes/C13-retry-overflow.patch`): every accepted Retry policy keeps the
+argument of `rand.Intn` in `RetryPolicy.Wrap` below 2^63 at every attempt — for every document and every
+duration oracle. (Before the repair this was an open finding: `retry_overflow_unrepaired`.) -/
+theorem retry_valid_no_overflow (o : Oracle) (p : J) :
+    retryValid o p = true → retryNoOverflow o p = true := by
+  unfold retryValid retryFits retryNoOverflow
+  intro h
+  simp only [Bool.and_eq_true] at h
+  obtain ⟨⟨_, hrange⟩, hfit⟩ := h
+  dsimp only at hfit ⊢
+  have hw : (0 : Int) ≤ (if durNs o (p.sget "waitDuration") ≤ 0 then 500000000 else durNs o (p.sget "waitDuration")) := by
+    split <;> omega
+  generalize (if durNs o (p.sget "waitDuration") ≤ 0 then (500000000 : Int) else durNs o (p.sget "waitDuration")) = w at *
+  cases hf : p.get "randomizationFactor" with
+  | num m e =>
+    simp only [hf, Bool.and_eq_true, decide_eq_true_eq] at hrange hfit ⊢
+    split
+    · rename_i hg
+      simp only [hg, if_true, decide_eq_true_eq] at hfit ⊢
+      have hA : (0 : Int) ≤ w * 3 ^ ((p.iget "maxAttempts" 3).toNat - 1) :=
+        Int.mul_nonneg hw (Int.pow_nonneg (by omega))
+      have := fits_core _ _ _ _ hA hrange.2 hfit
+      calc w * m * 2 * 3 ^ ((p.iget "maxAttempts" 3).toNat - 1)
+          = w * 3 ^ ((p.iget "maxAttempts" 3).toNat - 1) * m * 2 := by
+            simp only [Int.mul_assoc, Int.mul_comm, Int.mul_left_comm]
+        _ < 9223372036854775807 * (2 ^ ((p.iget "maxAttempts" 3).toNat - 1) * 10 ^ e) := this
+        _ = 9223372036854775807 * 10 ^ e * 2 ^ ((p.iget "maxAttempts" 3).toNat - 1) := by
+            simp only [Int.mul_assoc, Int.mul_comm, Int.mul_left_comm]
+    · rename_i hg
+      simp only [hg, if_false, decide_eq_true_eq, Bool.false_eq_true] at hfit ⊢
+      exact fits_core _ _ _ _ hw hrange.2 hfit
+  | null => simp
+  | bool _ => simp
+  | str _ => simp
+  | arr _ => simp
+  | obj _ => simp
+
+/-- the witness of the former open finding `C13-retry-overflow` (2000000h, factor 1): the repaired validation
+rejects it; without the new conjunct it was accepted and `rand.Intn` got a negative argument. -/
+theorem retry_overflow_unrepaired :
+    ∃ p, retryValid oBig p = false ∧ retryFits oBig p = false ∧ retryNoOverflow oBig p = false :=
   ⟨.obj [("name", .str "r"), ("kind", .str "Retry"), ("waitDuration", .str "2000000h"),
          ("randomizationFactor", .num 1 0)], by decide⟩
+
+/-- non-vacuity: an ordinary policy (here with the oracle's 1 ns wait and 200 exponential attempts) is accepted -/
+example : retryValid oTrue (.obj [("name", .str "r"), ("kind", .str "Retry"), ("maxAttempts", .num 50 0),
+    ("backOffPolicy", .str "exponential"), ("randomizationFactor", .num 5 1)]) = true := by decide
 
 /-! ### Pipeline -/
 
@@ -296,6 +338,35 @@ theorem valid_implies_handle_ok_Pipeline_partial (o : Oracle) (j : J) :
   intro f hf
   exact valid_implies_handle_ok_filter o f (hv f hf)
 
+/-- **Retry-overflow hazard closed at pipeline level** (repaired validation): in an accepted pipeline every
+Proxy pool's retry policy — whichever resilience entry the name resolves to — satisfies `retryNoOverflow`;
+the former Handle hazard `Retry.waitDuration-overflow` cannot fail for an accepted document. -/
+theorem valid_implies_retry_ok_Pipeline (o : Oracle) (j : J) :
+    pipelineValid o j = true → (j.aget "filters").all (filterRetryOK o (j.aget "resilience")) = true := by
+  intro h
+  unfold pipelineValid at h
+  simp only [Bool.and_eq_true] at h
+  have hres := h.2
+  rw [List.all_eq_true] at hres ⊢
+  intro f _
+  unfold filterRetryOK proxyRetryOK
+  rw [Bool.or_eq_true]
+  right
+  rw [List.all_eq_true]
+  intro pl _
+  unfold poolRetryOK
+  cases hq : (j.aget "resilience").reverse.find? (fun q => q.sget "name" == pl.sget "retryPolicy") with
+  | none => rfl
+  | some q =>
+    have hmem : q ∈ j.aget "resilience" := List.mem_reverse.mp (List.mem_of_find?_eq_some hq)
+    have hpv := hres q hmem
+    unfold policyValid at hpv
+    rw [Bool.and_eq_true] at hpv
+    by_cases hk : q.sget "kind" = "Retry"
+    · have hv : retryValid o q = true := by simpa [hk] using hpv.2
+      simp [retry_valid_no_overflow o q hv]
+    · simp [hk]
+
 private def proxyDangling : J :=
   .obj [("filters", .arr [.obj [("name", .str "a"), ("kind", .str "Proxy"),
     ("pools", .arr [.obj [("retryPolicy", .str "nope"),
@@ -315,6 +386,117 @@ theorem pipeline_namespace_violates :
     pipelineValid oTrue nsPipeline = true ∧ pipelineHandleOK oTrue nsPipeline = false := by decide
 
 /-! ### facts obligations (regenerated from the source on every run) -/
+
+/-! ### GlobalFilter object -/
+
+/-- A GlobalFilter part (`beforePipeline` / `afterPipeline`) that the object accepts is an accepted
+Pipeline spec. -/
+theorem globalFilter_parts_valid (o : Oracle) (j : J) (h : globalFilterValid o j = true) :
+    pipelineValid o (j.get "beforePipeline") = true ∧ pipelineValid o (j.get "afterPipeline") = true := by
+  unfold globalFilterValid at h
+  rwa [Bool.and_eq_true] at h
+
+/-- Full statement `globalFilterValid o j = true → globalFilterInitOK o j = true` is FALSE for the same
+reasons as for Pipeline (open findings: Proxy resilience references, RequestAdaptor guards; witness
+below). Proved: an accepted GlobalFilter instantiates (`Init` / `Inherit` → `reload`) without hitting a
+modelled guard when, in every part **that is instantiated** (non-empty flow), the resilience references
+resolve and the RequestAdaptors satisfy their guards. A part with an empty flow is never instantiated,
+whatever its filters are. -/
+theorem valid_implies_init_ok_GlobalFilter_partial (o : Oracle) (j : J)
+    (hinj : ∀ k ∈ ["beforePipeline", "afterPipeline"], gfActive (j.get k) = true →
+      ((j.get k).aget "filters").all (filterInjectOK ((j.get k).aget "resilience")) = true)
+    (hra : ∀ k ∈ ["beforePipeline", "afterPipeline"], gfActive (j.get k) = true →
+      ∀ f ∈ (j.get k).aget "filters", f.sget "kind" = "RequestAdaptor" → adaptorGuardsOK f = true) :
+    globalFilterValid o j = true → globalFilterInitOK o j = true := by
+  intro h
+  obtain ⟨hb, ha⟩ := globalFilter_parts_valid o j h
+  unfold globalFilterInitOK gfPartInitOK
+  rw [Bool.and_eq_true]
+  constructor
+  · cases hact : gfActive (j.get "beforePipeline")
+    · rfl
+    · simpa using valid_implies_init_ok_Pipeline_partial o _ (hinj _ (by simp) hact) (hra _ (by simp) hact) hb
+  · cases hact : gfActive (j.get "afterPipeline")
+    · rfl
+    · simpa using valid_implies_init_ok_Pipeline_partial o _ (hinj _ (by simp) hact) (hra _ (by simp) hact) ha
+
+/-- Handle: every filter of every part of an accepted GlobalFilter is free of modelled filter-level
+Handle guards (the flow-namespace / Retry-overflow hazards of `pipelineHandleOK` remain, as for Pipeline). -/
+theorem valid_implies_handle_ok_GlobalFilter_partial (o : Oracle) (j : J) (h : globalFilterValid o j = true) :
+    ((j.get "beforePipeline").aget "filters").all (filterHandleOK o) = true ∧
+    ((j.get "afterPipeline").aget "filters").all (filterHandleOK o) = true :=
+  ⟨valid_implies_handle_ok_Pipeline_partial o _ (globalFilter_parts_valid o j h).1,
+   valid_implies_handle_ok_Pipeline_partial o _ (globalFilter_parts_valid o j h).2⟩
+
+private def gfDangling (flow : List J) : J :=
+  .obj [("beforePipeline", .obj [("flow", .arr flow), ("filters", .arr [.obj [("name", .str "a"), ("kind", .str "Proxy"),
+    ("pools", .arr [.obj [("retryPolicy", .str "nope"),
+      ("servers", .arr [.obj [("url", .str "http://127.0.0.1:1")]])]])]])])]
+
+/-- negation witness + the role of the flow: the dangling `retryPolicy` is accepted; with a flow the
+before pipeline is instantiated and `InjectResiliencePolicy` panics, without a flow nothing is instantiated. -/
+theorem globalFilter_inject_violates :
+    globalFilterValid oTrue (gfDangling [.obj [("filter", .str "a")]]) = true ∧
+    globalFilterInitOK oTrue (gfDangling [.obj [("filter", .str "a")]]) = false ∧
+    gfInitGuard oTrue (gfDangling [.obj [("filter", .str "a")]]) = some ("Inject", "Proxy.retryPolicy") ∧
+    globalFilterValid oTrue (gfDangling []) = true ∧ globalFilterInitOK oTrue (gfDangling []) = true := by decide
+
+/-- non-vacuity: an accepted GlobalFilter with both parts instantiated and all guards satisfied -/
+example : globalFilterValid oTrue (.obj [
+      ("beforePipeline", .obj [("flow", .arr [.obj [("filter", .str "a")]]),
+        ("filters", .arr [.obj [("name", .str "a"), ("kind", .str "Mock"), ("rules", .arr [])]])]),
+      ("afterPipeline", .obj [("flow", .arr [.obj [("filter", .str "b")], .obj [("filter", .str "END")]]),
+        ("filters", .arr [.obj [("name", .str "b"), ("kind", .str "Fallback"), ("mockCode", .num 200 0)]])])]) = true ∧
+    globalFilterInitOK oTrue (.obj [
+      ("beforePipeline", .obj [("flow", .arr [.obj [("filter", .str "a")]]),
+        ("filters", .arr [.obj [("name", .str "a"), ("kind", .str "Mock"), ("rules", .arr [])]])]),
+      ("afterPipeline", .obj [("flow", .arr [.obj [("filter", .str "b")], .obj [("filter", .str "END")]]),
+        ("filters", .arr [.obj [("name", .str "b"), ("kind", .str "Fallback"), ("mockCode", .num 200 0)]])])]) = true := by
+  decide
+
+/-! ### HTTPServer object (mux level) -/
+
+/-- **An accepted HTTPServer spec builds its mux without panicking** (full statement, every document and
+oracle): the only panic site of `mux.reload` is `regexp.MustCompile` in `Header.initHeaderRoute`, and
+`format=regexp` on `Header.regexp` has already compiled that very string. -/
+theorem valid_implies_init_ok_HTTPServer (o : Oracle) (j : J) :
+    httpServerValid o j = true → httpServerInitOK o j = true := by
+  intro h
+  unfold httpServerValid at h
+  simp only [Bool.and_eq_true] at h
+  have hr := h.2
+  unfold httpServerInitOK
+  rw [List.all_eq_true] at hr ⊢
+  intro r hrm
+  have h1 := hr r hrm
+  unfold hsRuleOK at h1
+  simp only [Bool.and_eq_true] at h1
+  have hp := h1.2
+  rw [List.all_eq_true] at hp ⊢
+  intro p hpm
+  have h2 := hp p hpm
+  unfold hsPathOK at h2
+  simp only [Bool.and_eq_true] at h2
+  have hh := h2.1.2
+  unfold hsPathInitOK
+  rw [List.all_eq_true] at hh ⊢
+  intro hd hdm
+  have h3 := hh hd hdm
+  unfold hsHeaderOK at h3
+  simp only [Bool.and_eq_true] at h3
+  exact h3.1.2
+
+private def hsDoc (re : String) : J :=
+  .obj [("port", .num 10080 0), ("keepAlive", .bool true), ("https", .bool false),
+    ("rules", .arr [.obj [("host", .str "a.test"), ("paths", .arr [.obj [("pathPrefix", .str "/a"),
+      ("rewriteTarget", .str "/r"), ("backend", .str "b0"),
+      ("headers", .arr [.obj [("key", .str "X-A"), ("regexp", .str re)]])]])]])]
+
+/-- non-vacuity, and the guard is the one that matters: with an oracle that refuses the header regexp the
+same document is rejected. -/
+example : httpServerValid oTrue (hsDoc "^1$") = true ∧ httpServerInitOK oTrue (hsDoc "^1$") = true ∧
+    httpServerValid ⟨fun _ => false, fun _ => some 1, fun _ => true, fun _ _ _ => true, fun _ => true⟩ (hsDoc "(") = false := by
+  decide
 
 /-- every function with a `panic(` / `MustCompile(` / `template.Must(` in the anchored packages is
 mapped (with its call count) to a modelled guard, an allow-list entry or an explicit not-covered entry. -/
